@@ -1091,3 +1091,94 @@ Section ShoeboxRoomProofs.
     apply (sb_point_wall_visible k _ _ (sb_f w) (sb_s w) (patch_on_wall k Hk)). apply sb_f_lt.
   Qed.
 End ShoeboxRoomProofs.
+
+(** ** 8. the theorems, stated for [is_shoebox] rooms *)
+Section ShoeboxTheorems.
+  Context {T : Type} {O : Ops T} {RL : RingLaws T} {OL : OrderLaws T} {FL : FieldLaws T}
+          {FlL : FloorLaws T} {SL : SqrtLaws T}.
+  Local Open Scope T_scope.
+
+  Theorem shoebox_axis_walls (rm : @room T) (x0 x1 y0 y1 z0 z1 : T) :
+    is_shoebox rm x0 x1 y0 y1 z0 z1 -> axis_walls rm.
+  Proof.
+    intros (Hw & Hn & _ & Hx & Hy & Hz & Hp & Hpx & Hpy & Hpz).
+    exact (sb_axis_walls x0 x1 y0 y1 z0 z1 rm Hw Hn Hx Hy Hz Hp Hpx Hpy Hpz).
+  Qed.
+
+  (** the list of patch rectangles of a shoebox room *)
+  Lemma shoebox_cells (rm : @room T) (x0 x1 y0 y1 z0 z1 : T) :
+    is_shoebox rm x0 x1 y0 y1 z0 z1 ->
+    exists rs, rects_of (rm_patch_surfs rm) rs /\
+      forall k, (k < rm_np rm)%nat ->
+        let w := wall (room_scene rm) k in
+        is_cell (nth w (rm_walls rm) dquad) (rm_patch_size rm) (sb_f w) (sb_s w)
+                (sb_c x0 x1 y0 y1 z0 z1 w) (nth k rs drect).
+  Proof.
+    intros (Hw & Hn & _ & Hx & Hy & Hz & Hp & Hpx & Hpy & Hpz).
+    exact (room_cells rm _ _ _ (sb_axis_walls_by x0 x1 y0 y1 z0 z1 rm Hw Hn Hx Hy Hz Hp Hpx Hpy Hpz)).
+  Qed.
+
+  (** GENERAL POSITION is a theorem for shoebox rooms: the hypothesis of
+      [room_visibility_geometric] holds for every pair of patches and every patch rectangle *)
+  Theorem shoebox_general_position (rm : @room T) (x0 x1 y0 y1 z0 z1 m : T) :
+    is_shoebox rm x0 x1 y0 y1 z0 z1 ->
+    0 < rm_eta rm ->
+    rm_eps rm + rm_eps rm < rm_patch_size rm -> rm_eta rm + rm_eta rm < rm_patch_size rm ->
+    m + m < rm_patch_size rm ->
+    exists rs, rects_of (rm_patch_surfs rm) rs /\
+      forall i j, (i < rm_np rm)%nat -> (j < rm_np rm)%nat ->
+        forall r, In r rs ->
+          gen_pos (rm_eps rm) (rm_eta rm) m r (nthv (rm_centers rm) i) (nthv (rm_centers rm) j).
+  Proof.
+    intros Hsb Heta Hep Hetap Hmp. destruct (shoebox_cells rm x0 x1 y0 y1 z0 z1 Hsb) as (rs & Hrs & Hc).
+    destruct Hsb as (Hw & Hn & _ & Hx & Hy & Hz & Hp & Hpx & Hpy & Hpz).
+    exists rs. split; [exact Hrs|]. intros i j Hi Hj r Hr.
+    exact (sb_gen_pos x0 x1 y0 y1 z0 z1 rm Hw Hx Hy Hz Hp Hpx Hpy Hpz rs Hrs Hc m Heta Hep Hetap Hmp i j r Hi Hj Hr).
+  Qed.
+
+  (** CLOSED FORM of the patch-to-patch visibility of a shoebox room *)
+  Theorem shoebox_visibility (rm : @room T) (x0 x1 y0 y1 z0 z1 : T) :
+    is_shoebox rm x0 x1 y0 y1 z0 z1 -> sb_tolerances rm ->
+    forall i j, (i < j)%nat -> (j < rm_np rm)%nat ->
+      (vis_sym (room_scene rm) i j = true <-> wall (room_scene rm) i <> wall (room_scene rm) j).
+  Proof.
+    intros Hsb (He & He1 & Heta & Hep & Hetap).
+    destruct (shoebox_cells rm x0 x1 y0 y1 z0 z1 Hsb) as (rs & Hrs & Hc).
+    destruct Hsb as (Hw & Hn & _ & Hx & Hy & Hz & Hp & Hpx & Hpy & Hpz).
+    exact (sb_visibility x0 x1 y0 y1 z0 z1 rm Hw Hx Hy Hz Hp Hpx Hpy Hpz rs Hrs Hc (rm_eta rm)
+             Heta Hep Hetap Hetap He He1 (eta_margin _ (tlt_le _ _ Heta))).
+  Qed.
+
+  (** a point strictly inside the box: farther than eps and eta from the six wall planes *)
+  Definition sb_inside (rm : @room T) (x0 x1 y0 y1 z0 z1 : T) (pos : @vec T) : Prop :=
+    forall f s, (f < 3)%nat ->
+      rm_eps rm < wside x0 x1 y0 y1 z0 z1 f s pos /\ rm_eta rm < wside x0 x1 y0 y1 z0 z1 f s pos.
+
+  (** every patch of a shoebox room is visible from an interior point *)
+  Theorem shoebox_point_visibility (rm : @room T) (x0 x1 y0 y1 z0 z1 : T) (pos : @vec T) :
+    is_shoebox rm x0 x1 y0 y1 z0 z1 -> sb_tolerances rm -> sb_inside rm x0 x1 y0 y1 z0 z1 pos ->
+    forall k, (k < rm_np rm)%nat -> nthb (room_point_vis rm pos) k = true.
+  Proof.
+    intros Hsb (He & He1 & Heta & Hep & Hetap) Hpos.
+    destruct (shoebox_cells rm x0 x1 y0 y1 z0 z1 Hsb) as (rs & Hrs & Hc).
+    destruct Hsb as (Hw & Hn & _ & Hx & Hy & Hz & Hp & Hpx & Hpy & Hpz).
+    exact (sb_point_visibility x0 x1 y0 y1 z0 z1 rm Hw Hn Hx Hy Hz Hp Hpx Hpy Hpz rs Hrs Hc (rm_eta rm)
+             Heta Hep Hetap Hetap He He1 (eta_margin _ (tlt_le _ _ Heta)) pos Hpos).
+  Qed.
+
+  (** hence the source illuminates every patch: no entry of the visibility vector is false *)
+  Corollary shoebox_point_visibility_all (rm : @room T) (x0 x1 y0 y1 z0 z1 : T) (pos : @vec T) :
+    is_shoebox rm x0 x1 y0 y1 z0 z1 -> sb_tolerances rm -> sb_inside rm x0 x1 y0 y1 z0 z1 pos ->
+    room_point_vis rm pos = repeat true (rm_np rm).
+  Proof.
+    intros Hsb Htol Hpos.
+    pose proof (shoebox_point_visibility rm x0 x1 y0 y1 z0 z1 pos Hsb Htol Hpos) as H.
+    assert (Hlen : length (room_point_vis rm pos) = rm_np rm).
+    { unfold room_point_vis, check_point2patch, rm_centers, rm_np. now rewrite !map_length. }
+    revert H Hlen. generalize (room_point_vis rm pos) as l, (rm_np rm) as n.
+    induction l as [|b l IH]; intros n H Hlen; cbn [length] in Hlen; subst n; [reflexivity|].
+    cbn [repeat]. f_equal.
+    - exact (H 0%nat (Nat.lt_0_succ _)).
+    - apply IH; [|reflexivity]. intros k Hk. exact (H (S k) (proj1 (Nat.succ_lt_mono _ _) Hk)).
+  Qed.
+End ShoeboxTheorems.
